@@ -137,6 +137,12 @@ def tmp_worktree(repo: str | Path = ".", ref: str = "HEAD") -> Iterator[Path]:
     with TemporaryDirectory(prefix=f"{_WORKTREE_PREFIX}{repo_name}-{normref}-") as tmp_dir:
         location = os.path.join(tmp_dir, normref)  # noqa: PTH118
         tmp_branch = f"griffe-{normref}"  # Temporary branch name must not already exist.
+        # If it does exist, it is not ours: it must never be deleted.
+        branch_existed = not subprocess.run(
+            ["git", "-C", repo, "show-ref", "--verify", "--quiet", f"refs/heads/{tmp_branch}"],
+            check=False,
+            env=_git_env(),
+        ).returncode
         try:
             process = subprocess.run(
                 ["git", "-C", repo, "worktree", "add", "-b", tmp_branch, location, ref],
@@ -169,6 +175,16 @@ def tmp_worktree(repo: str | Path = ".", ref: str = "HEAD") -> Iterator[Path]:
                 subprocess.run(
                     ["git", "-C", repo, "branch", "-D", tmp_branch],
                     stdout=subprocess.DEVNULL,
+                    check=False,
+                    env=_git_env(),
+                )
+            elif not branch_existed:
+                # Git creates the branch first, and itself removes a worktree it could not populate
+                # (a failing smudge filter for example): the branch is then left behind.
+                subprocess.run(
+                    ["git", "-C", repo, "branch", "-D", tmp_branch],
+                    stdout=subprocess.DEVNULL,
+                    stderr=subprocess.DEVNULL,
                     check=False,
                     env=_git_env(),
                 )
